@@ -121,6 +121,9 @@ def _case(arg) -> Dict[str, Any]:
 
     kw = dict(n_threads=1 + seed % 2, n_streams=1 + seed % 3, steps=seed % 3, p_missing_kernel=0.15, p_orphan_kernel=0.1, p_memcpy=0.3, p_sync=0.1, p_same_ts_kernel=0.3)
     nr = 1 + seed % 2
+    if seed % 4 == 1:
+        # correlation ids are per-process counters: the same ids occur in every rank; some linked host calls are not launch calls of the selected kinds
+        kw.update(distinct_corr_per_rank=False, p_other_launch=0.4)
     per_rank = gen.gen_trace_set(seed, n_ranks=nr, **kw)
     if seed % 3 == 0:  # memset launches too
         for evs in per_rank.values():
